@@ -2,8 +2,10 @@ package props
 
 import (
 	"encoding/json"
+	"errors"
 	"fmt"
 	gsimpl "github.com/ipfs/go-graphsync/impl"
+	"github.com/ipfs/go-graphsync/ipldutil"
 	"strings"
 
 	"github.com/ipfs/go-graphsync"
@@ -29,6 +31,7 @@ type c22Case struct {
 	K        int    `json:"k"`                           // 1-based call index (counted from the start of the judged phase)
 	Solo     bool   `json:"solo"`                        // only the target request runs in the judged phase
 	NoCb     bool   `json:"no_panic_callback,omitempty"` // the instances are built without a panic callback (the default)
+	Value    string `json:"panic_value,omitempty"`       // "" (a string) | error | cancel-error (an error wrapping the traversal's own context-cancelled error, as a callback re-panicking a failed nested load would raise)
 }
 
 func c22Selector(cb string) datamodel.Node {
@@ -70,6 +73,12 @@ func c22Run(cs c22Case) *c22Obs {
 		armed := qs
 		if cs.Side == "responder" {
 			armed = rs
+		}
+		switch cs.Value {
+		case "error":
+			armed.PanicValue = func(msg string) any { return errors.New(msg) }
+		case "cancel-error":
+			armed.PanicValue = func(msg string) any { return fmt.Errorf("%s: %w", msg, ipldutil.ContextCancelError{}) }
 		}
 		var nopts []gsimpl.Option
 		if cs.NoCb {
@@ -133,6 +142,10 @@ func c22Judge(cs c22Case, o *c22Obs) (sig, what, class string) {
 	if cs.NoCb {
 		tag += "/no-callback-configured"
 		detail = "no panic callback configured; " + detail
+	}
+	if cs.Value != "" {
+		tag += "/panic-value-" + cs.Value
+		detail = "panic value kind " + cs.Value + "; " + detail
 	}
 	sel := c22Selector(cs.Callback)
 	healthy := func(i int) string {
@@ -218,14 +231,15 @@ func runC22(c *core.Ctx) {
 	var idx int64
 	for _, side := range []string{"requestor", "responder"} {
 		for _, cb := range []string{"read", "write", "commit", "decode", "reify", "adl", "chooser"} {
-			for _, mode := range []int{0, 1, 2} {
+			for _, mode := range []int{0, 1, 2, 3, 4} {
 				solo, nocb := mode == 0, mode == 2
+				value := map[int]string{3: "error", 4: "cancel-error"}[mode]
 				for k := 1; k <= 16; k++ {
 					idx++
 					if !c.Mine(idx) {
 						continue
 					}
-					cs := c22Case{Callback: cb, Side: side, K: k, Solo: solo, NoCb: nocb}
+					cs := c22Case{Callback: cb, Side: side, K: k, Solo: solo, NoCb: nocb, Value: value}
 					o := c22Run(cs)
 					sig, what, class := c22Judge(cs, o)
 					c.Res.Evaluations++
@@ -250,7 +264,7 @@ func runC22(c *core.Ctx) {
 
 func init() {
 	core.Register(&core.Prop{ID: "C22", Level: "fault_enumeration",
-		Rule:        "panic armed at call k=1..16 of each of {storage read opener, storage write opener, block committer, codec decoder, node reifier, ADL reifier reached through interpret-as, link-target prototype chooser} x {requestor, responder}, while one or two requests over 3-block chains run (after a healthy warm-up request) and a third request follows; the two-request runs are repeated on instances built without a panic callback (the default configuration); a class is (callback, side, fired or call index beyond the run)",
+		Rule:        "panic armed at call k=1..16 of each of {storage read opener, storage write opener, block committer, codec decoder, node reifier, ADL reifier reached through interpret-as, link-target prototype chooser} x {requestor, responder}, while one or two requests over 3-block chains run (after a healthy warm-up request) and a third request follows; the two-request runs are repeated on instances built without a panic callback (the default configuration) and with panic values that are errors (a plain one; one wrapping the traversal's context-cancelled error); a class is (callback, side, fired or call index beyond the run)",
 		Assumptions: []string{"two real instances, default schedule", "with two concurrent requests whichever request the k-th call belongs to is the victim; the other must equal its reference result"},
 		Run:         runC22, QuickBudget: 200, ThoroughBudget: 600,
 		Replay: func(raw json.RawMessage) string {
